@@ -111,6 +111,34 @@ def day_job(job):
                 events.append({"k": "sched", "param": f"{g}.{k}", "day": d.toordinal(), "raw": raw_schedule(pw[k]), "parsed": {"t": [], "r": [], "ic": []}, "shape": []})
                 meta.append({"param": f"{g}.{k}", "date": iso, "parse_error": f"{type(e).__name__}: {str(e)[:120]}"})
             continue
+        # the two parsing helpers are functions of the specification they are given: the SAME specification object of a
+        # parameter is parsed (not a copy), then edited in place (every linear rate x 1.1, what a reform script does) and parsed
+        # again; the second result must be the schedule of the edited specification (progression factors, intercepts recomputed)
+        from _gettsim.piecewise_functions import get_piecewise_parameters
+        from _gettsim.policy_environment import add_progressionsfaktor
+
+        def parse_spec(spec, name):
+            sp = add_progressionsfaktor(spec, name) if spec.get("progressionsfaktor") else spec
+            return get_piecewise_parameters(sp, name, func_type=spec["type"].split("_")[1])
+
+        for k_, rp_ in pw.items():
+            try:
+                spec = copy.deepcopy(rp_)
+                parse_spec(spec, k_)
+                for key_, iv_ in spec.items():
+                    if isinstance(key_, int) and isinstance(iv_, dict) and isinstance(iv_.get("rate_linear"), (int, float)) and not isinstance(iv_.get("rate_linear"), bool):
+                        iv_["rate_linear"] = iv_["rate_linear"] * 1.1
+                law2 = copy.deepcopy(spec)
+                for key_, iv_ in law2.items():          # the law is the edited specification as the USER wrote it
+                    if isinstance(key_, int) and isinstance(iv_, dict):
+                        for extra_ in set(iv_) - set(rp_[key_]):
+                            del iv_[extra_]
+                p2 = parse_spec(spec, k_)
+                events.append({"k": "sched", "param": f"{g}.{k_}", "day": d.toordinal(), "raw": raw_schedule(law2), "parsed": parsed_schedule(p2), "shape": []})
+                meta.append({"param": f"{g}.{k_}", "date": iso, "what": "second parse of the same specification object after an in-place edit"})
+            except Exception as e:  # noqa: BLE001
+                events.append({"k": "sched", "param": f"{g}.{k_}", "day": d.toordinal(), "raw": raw_schedule(rp_), "parsed": {"t": [], "r": [], "ic": []}, "shape": []})
+                meta.append({"param": f"{g}.{k_}", "date": iso, "parse_error": f"second parse: {type(e).__name__}: {str(e)[:100]}"})
         for k, rp in pw.items():
             p = parsed[k]
             events.append({"k": "sched", "param": f"{g}.{k}", "day": d.toordinal(), "raw": raw_schedule(rp), "parsed": parsed_schedule(p), "shape": SHAPES.get(k, [])})
